@@ -33,7 +33,9 @@ func init() {
 	zerolog.SetGlobalLevel(zerolog.Disabled)
 }
 
-const ChainID = "verif-chain-1"
+// ChainID is the chain id of the simulated chain. Checks may set it (per case, one case at a time per
+// process) to one of the production chain ids for which the application carries fork overrides.
+var ChainID = "verif-chain-1"
 
 // Universe is a deterministic set of identities.
 type Universe struct {
